@@ -760,12 +760,16 @@ func calAndSetEventNode(e *Expr) {
 		)
 		return func(ctx *Ctx, params []Value) (res Value, err error) {
 			res, err = op(ctx, params)
+			// params may alias the evaluator's reused two-element buffer,
+			// so the event gets its own copy
+			eventParams := make([]Value, len(params))
+			copy(eventParams, params)
 			e.EventChan <- Event{
 				EventType: OpExecEvent,
 				Data: OpEventData{
 					IsFastOp: isFastOp,
 					OpName:   name,
-					Params:   params,
+					Params:   eventParams,
 					Res:      res,
 					Err:      err,
 				},
